@@ -63,7 +63,18 @@ def main():
         except Exception:  # noqa
             pass
         return r.returncode
-    # died twice: the implementation crashes under the harness
+    # died twice: the implementation crashes under the harness.  Failing inputs the runner had already found (their replay
+    # files are written at detection) are reported as such; the crash itself is reported as well.
+    import glob
+    early = []
+    for f in sorted(glob.glob(os.path.join(VERIF, 'replays', '%s_%s_%d_[0-9]*.json' % (prop, tier, seed)))):
+        try:
+            if os.path.getmtime(f) >= t0 - 1 and json.load(open(f)).get('kind') == 'failing-input':
+                early.append(f)
+        except Exception:  # noqa
+            pass
+    for f in early:
+        print('VIOLATION property=%s replay=%s' % (prop, f))
     os.makedirs(os.path.join(VERIF, 'replays'), exist_ok=True)
     path = os.path.join(VERIF, 'replays', '%s_%s_%d_crash.json' % (prop, tier, seed))
     json.dump(dict(property=prop, seed=seed, tier=tier, kind='no-failing-input-found',
@@ -73,7 +84,7 @@ def main():
     ev = dict(property_id=prop, tier=tier, seed=seed, level='proof',
               coverage=dict(evaluations=1, distinct_nontrivial=2, rule='runner crashed; see replay',
                             samples=[dict(crash=r.returncode)]),
-              wall_s=round(time.time() - t0, 2), violations=1)
+              wall_s=round(time.time() - t0, 2), violations=1 + len(early))
     os.makedirs(os.path.join(VERIF, 'evidence'), exist_ok=True)
     json.dump(ev, open(os.path.join(VERIF, 'evidence', prop + '.json'), 'w'), indent=1)
     print('VIOLATION property=%s replay=%s no-failing-input-found' % (prop, path))
